@@ -1,6 +1,7 @@
 PROPS["C20"] = {
     "runs": [{"cmd": "c20.builder", "quick": 3000, "thorough": 60000, "thorough_seeds": 2},
-             {"cmd": "c20.events", "quick": 600, "thorough": 8000, "thorough_seeds": 2, "oracle_only": True}],
+             {"cmd": "c20.events", "quick": 600, "thorough": 8000, "thorough_seeds": 2, "oracle_only": True},
+             {"cmd": "c20.gen", "quick": 40, "thorough": 500, "thorough_seeds": 2}],
     "nontrivial": lambda c: c["input"].count("(") >= 4,
     "rule": "c20.builder: random well-nested interval families over texts of 1..24 bytes (zero-length nodes, shared boundaries, independent subtrees interleaved so that earlier events may lie to the right), "
             "20% arbitrary event lists and 10% families with one corrupted range, driven into builder.addNode of parsers/tm/ast and parsers/js/ast (both instances of go_ast_parse.go.tmpl); "
